@@ -296,3 +296,67 @@ theorem sp_ext : ExtOK ([sp].map fun x => x.seg.boxes) sp.seg.boxes ∧ ExtOK ([
   refine ⟨⟨?_, trivial⟩, ⟨?_, trivial⟩⟩ <;> decide
 
 end Lentil.Witness
+
+/-! ### chains with Tilt planes interleaved -/
+namespace Lentil
+variable {K R : Type}
+
+/-- the default plane (amplitude 1, flat OPD `o` with `ph o = 1`, 0-d mask) maps every list of array fields to itself -/
+theorem planeMultiply_default_id [MulZeroOneClass K] (ph : R → K) (o : R) (hph : ph o = 1) (data : List (Fld K))
+    (hd : ∀ f ∈ data, f.size1 = false ∧ f.extent.valid) :
+    planeMultiply ph ⟨.scalar 1, .scalar o, .scalar true⟩ data = data := by
+  unfold planeMultiply
+  simp only [planePhasors]
+  induction data with
+  | nil => rfl
+  | cons f fs ih =>
+    have hf := hd f (List.mem_cons_self ..)
+    have hq1 : (scalarPhasor ph (.scalar (1 : K)) (.scalar o) true).size1 = true := rfl
+    have hqv : ∀ x : K, x * (scalarPhasor ph (.scalar (1 : K)) (.scalar o) true).arr.get 0 0 = x := by
+      intro x; simp [scalarPhasor, maskMul, Attr.at, hph]
+    have hm := mul_one_field f _ hf.1 hq1 ((pos_iff_valid f).mpr hf.2) hqv
+    rw [List.flatMap_cons, ih (fun x hx => hd x (List.mem_cons_of_mem _ hx))]
+    simp only [List.filterMap_cons, List.filterMap_nil, hm]
+    rfl
+
+/-- one masked plane on array fields, under `ExtOK`: the outputs are array fields again and `ExtOK` continues -/
+theorem step_ext_ok [Zero K] [Mul K] (ph : R → K) (p : PlaneM K R) (hp : p.ok) (data : List (Fld K))
+    (hd : ∀ f ∈ data, f.size1 = false ∧ f.extent.valid) (rest : List (List Extent))
+    (hE : ExtOK (p.boxes :: rest) (data.map Fld.extent)) :
+    (∀ g ∈ planeMultiply ph p data, g.size1 = false ∧ g.extent.valid) ∧ ExtOK rest ((planeMultiply ph p data).map Fld.extent) := by
+  obtain ⟨hbox, hq⟩ := phasors_ok ph p hp
+  have hext : (planeMultiply ph p data).map Fld.extent = stepExtents p.boxes (data.map Fld.extent) := by
+    rw [planeMultiply_extents ph p data (fun f hf => (hd f hf).1) (fun q hq' => (hq q hq').1), hbox]
+  obtain ⟨hE1, hE2⟩ := hE
+  refine ⟨?_, by rw [hext]; exact hE2⟩
+  intro g hg
+  have hmem : g.extent ∈ stepExtents p.boxes (data.map Fld.extent) := by rw [← hext]; exact List.mem_map_of_mem hg
+  refine ⟨?_, ?_⟩
+  · rw [Bool.eq_false_iff]; intro hh
+    exact hE1 _ hmem ((size1_iff_onePx g).mp hh)
+  · refine stepExtents_valid _ _ ?_ ?_ _ hmem
+    · intro b hb; rw [← hbox] at hb
+      obtain ⟨q, hq', rfl⟩ := List.mem_map.mp hb
+      exact (hq q hq').2.1
+    · intro e he
+      obtain ⟨f, hf, rfl⟩ := List.mem_map.mp he
+      exact (hd f hf).2
+
+/-- the first masked plane on the fresh wavefront: array fields occupying the plane's boxes -/
+theorem fresh_step_ok [Zero K] [Mul K] (ph : R → K) (w0 : Fld K) (h0 : w0.size1 = true) (p : PlaneM K R) (hp : p.ok) :
+    (∀ g ∈ planeMultiply ph p [w0], g.size1 = false ∧ g.extent.valid) ∧ (planeMultiply ph p [w0]).map Fld.extent = p.boxes := by
+  obtain ⟨hbox, hq⟩ := phasors_ok ph p hp
+  have hext : (planeMultiply ph p [w0]).map Fld.extent = p.boxes := by
+    rw [planeMultiply_fresh_extents ph p w0 h0 (fun q hq' => ⟨(hq q hq').1, (hq q hq').2.1⟩), hbox]
+  refine ⟨?_, hext⟩
+  intro g hg
+  have hmem : g.extent ∈ (planePhasors ph p).map Fld.extent := by rw [hbox, ← hext]; exact List.mem_map_of_mem hg
+  obtain ⟨q, hq', hqe⟩ := List.mem_map.mp hmem
+  refine ⟨?_, by rw [← hqe]; exact (hq q hq').2.1⟩
+  rw [Bool.eq_false_iff]; intro hh
+  have h1 := (size1_iff_onePx g).mp hh
+  rw [← hqe] at h1
+  have := (size1_iff_onePx q).mpr h1
+  rw [(hq q hq').1] at this; exact Bool.false_ne_true this
+
+end Lentil
